@@ -320,6 +320,54 @@ Proof.
   rewrite app_nil_r, count_app. lia.
 Qed.
 
+(* ---------- options, batches, common arguments ---------- *)
+Lemma direct_option_declared : forall d a, gen_direct_option d a = d.
+Proof. intros d a. reflexivity. Qed.
+
+Lemma direct_header_declared : forall a h, direct_header a h = h.
+Proof. intros a h. unfold direct_header. rewrite direct_option_declared. destruct h; reflexivity. Qed.
+
+Lemma ceil_batches_cover : forall n b, 0 < b -> n <= Nat.div (n + b - 1) b * b.
+Proof.
+  intros n b Hb.
+  pose proof (Nat.div_mod (n + b - 1) b ltac:(lia)) as Hd.
+  pose proof (Nat.mod_upper_bound (n + b - 1) b ltac:(lia)) as Hm.
+  rewrite (Nat.mul_comm b) in Hd. lia.
+Qed.
+
+Lemma gen_batches_are_ceil : forall n b, gen_batch_count n b = Nat.div (n + b - 1) b.
+Proof. intros n b. reflexivity. Qed.
+
+Lemma routed_all : forall n b, 0 < b -> routed n b = n.
+Proof.
+  intros n b Hb. unfold routed. rewrite gen_batches_are_ceil.
+  apply Nat.min_l. apply ceil_batches_cover. exact Hb.
+Qed.
+
+(* floor division would lose the trailing partial batch: 7 calls in batches of 3 -> 6 routed *)
+Lemma floor_batches_lose_the_tail : Nat.min 7 (Nat.max 1 (Nat.div 7 3) * 3) = 6 /\ routed 7 3 = 7.
+Proof. vm_compute. split; reflexivity. Qed.
+
+Lemma gen_common_fresh : gen_common_args_fresh_per_call = true.
+Proof. reflexivity. Qed.
+
+Lemma merged_fresh_is_map : forall common calls cur,
+  merged_calls true cur common calls = map (kw_update common) calls.
+Proof.
+  intros common calls. induction calls as [|p r IH]; intros cur; [reflexivity|].
+  cbn [merged_calls map]. rewrite IH. reflexivity.
+Qed.
+
+Lemma received_own_kwargs : forall common calls,
+  received_kwargs common calls = map (kw_update common) calls.
+Proof. intros common calls. unfold received_kwargs. rewrite gen_common_fresh. apply merged_fresh_is_map. Qed.
+
+(* one dict updated in place: the key 1 of the first call leaks into the second *)
+Lemma in_place_update_leaks :
+  merged_calls false [(0, 2)] [(0, 2)] [[(1, 5)]; []] = [[(0, 2); (1, 5)]; [(0, 2); (1, 5)]] /\
+  merged_calls true [(0, 2)] [(0, 2)] [[(1, 5)]; []] = [[(0, 2); (1, 5)]; [(0, 2)]].
+Proof. vm_compute. split; reflexivity. Qed.
+
 (* ---------- refutations (faithful model, concrete witnesses) ---------- *)
 Definition id_tr (e : exn) : exn := e.
 
